@@ -933,11 +933,18 @@ func (fx *Fx) applyCall(st *State, fn *types.Func, recv *Val, args []Val, call *
 		id := c.codeId(key)
 		st.setHeap("NRT", "(Array Int Int)", fmt.Sprintf("(store %s %d (+ (select %s %d) 1))", nrt, 2*id, nrt, 2*id))
 	}
-	if sp.Flags["countresult"] != "" && len(out) > 0 && out[0].S == "Bool" {
+	if sp.Flags["countresult"] != "" {
 		// per-activation ghost counters of the direct calls of this callee: [2*code] calls, [2*code+1] calls that returned true
-		nrt := st.heap("NRT", "(Array Int Int)")
-		id := c.codeId(key)
-		st.setHeap("NRT", "(Array Int Int)", fmt.Sprintf("(store (store %s %d (+ (select %s %d) 1)) %d (+ (select %s %d) (ite %s 1 0)))", nrt, 2*id, nrt, 2*id, 2*id+1, nrt, 2*id+1, out[0].T))
+		// (the first boolean result: `v, ok := f()` counts ok)
+		for _, o := range out {
+			if o.S != "Bool" {
+				continue
+			}
+			nrt := st.heap("NRT", "(Array Int Int)")
+			id := c.codeId(key)
+			st.setHeap("NRT", "(Array Int Int)", fmt.Sprintf("(store (store %s %d (+ (select %s %d) 1)) %d (+ (select %s %d) (ite %s 1 0)))", nrt, 2*id, nrt, 2*id, 2*id+1, nrt, 2*id+1, o.T))
+			break
+		}
 	}
 	return out
 }
